@@ -333,6 +333,9 @@ func c08Case(b *Batch, idx int) {
 						ev.Seen = append(ev.Seen, *s)
 					}
 				}
+				for bi := range key {
+					key[bi] ^= 0x3c // the caller reuses its key buffer: nothing stored may alias it
+				}
 				pause()
 				ev.Ret = atomic.AddInt64(&clock, 1)
 				logs[c] = append(logs[c], ev)
